@@ -157,6 +157,12 @@ func (a *archiveReconciler) intermediateRevisionCanBeArchived(
 	if err != nil {
 		return false, err
 	}
+	// Objects of the latest revision may live in ObjectSlices instead of the phases themselves.
+	latestRevisionSliceObjects, err := a.getObjectsFromSlices(ctx, currentLatestRevision)
+	if err != nil {
+		return false, err
+	}
+	latestRevisionObjects = append(latestRevisionObjects, latestRevisionSliceObjects...)
 	previousRevisionActivelyReconciledObjects := newObjectSetGetter(previousRevision).getActivelyReconciledObjects()
 	// Actively reconciled status is not yet updated
 	if previousRevisionActivelyReconciledObjects == nil {
@@ -187,6 +193,46 @@ func (a *archiveReconciler) intermediateRevisionCanBeArchived(
 		return isPaused, nil
 	}
 	return false, nil
+}
+
+// getObjectsFromSlices returns the identifiers of all objects
+// that the phases of the given revision reference via ObjectSlices.
+func (a *archiveReconciler) getObjectsFromSlices(
+	ctx context.Context, objectSet adapters.ObjectSetAccessor,
+) ([]objectIdentifier, error) {
+	var newSlice func() adapters.ObjectSliceAccessor
+	switch objectSet.(type) {
+	case *adapters.ObjectSetAdapter:
+		newSlice = func() adapters.ObjectSliceAccessor { return &adapters.ObjectSlice{} }
+	case *adapters.ClusterObjectSetAdapter:
+		newSlice = func() adapters.ObjectSliceAccessor { return &adapters.ClusterObjectSlice{} }
+	default:
+		return nil, nil
+	}
+
+	var result []objectIdentifier
+	for _, phase := range objectSet.GetPhases() {
+		for _, sliceName := range phase.Slices {
+			slice := newSlice()
+			key := client.ObjectKey{Name: sliceName, Namespace: objectSet.ClientObject().GetNamespace()}
+			if err := a.client.Get(ctx, key, slice.ClientObject()); err != nil {
+				return nil, fmt.Errorf("getting ObjectSlice %s: %w", key, err)
+			}
+			for _, obj := range slice.GetObjects() {
+				namespace := obj.Object.GetNamespace()
+				if len(namespace) == 0 {
+					namespace = objectSet.ClientObject().GetNamespace()
+				}
+				result = append(result, objectSetObjectIdentifier{
+					name:      obj.Object.GetName(),
+					namespace: namespace,
+					group:     obj.Object.GroupVersionKind().Group,
+					kind:      obj.Object.GroupVersionKind().Kind,
+				})
+			}
+		}
+	}
+	return result, nil
 }
 
 func (a *archiveReconciler) ensurePaused(ctx context.Context, objectset adapters.ObjectSetAccessor) (bool, error) {
